@@ -318,8 +318,19 @@ func argSchema() *schemaDef {
 		"o": {{"id", named("ID"), nil}},
 	}}
 	q.fields = []fieldDef{{"f", named("Int")}, {"g", nonNull(named("Int"))}, {"d", named("String")},
-		{"l", listOf(named("Int"))}, {"o", named("O")}, {"plain", named("Int")}}
+		{"l", listOf(named("Int"))}, {"o", named("O")}, {"plain", named("Int")},
+		{"il", listOf(named("I"))}, {"iv", named("I")}}
 	s.add(q)
+	// one interface field, implementations that differ in the argument's default (and one with an
+	// argument of its own): ONE field node selected through I is coerced per concrete type
+	s.add(&typeDef{name: "IA", kind: "object", ifaces: []string{"I"}, fields: []fieldDef{{"f", named("Int")}, {"plain", named("Int")}},
+		fargs: map[string][]argDef{"f": {{"k", named("Int"), 2}}}})
+	s.add(&typeDef{name: "IB", kind: "object", ifaces: []string{"I"}, fields: []fieldDef{{"f", named("Int")}, {"plain", named("Int")}},
+		fargs: map[string][]argDef{"f": {{"k", named("Int"), 3}, {"xk", named("Int"), 9}}}})
+	s.add(&typeDef{name: "IC", kind: "object", ifaces: []string{"I"}, fields: []fieldDef{{"f", named("Int")}, {"plain", named("Int")}},
+		fargs: map[string][]argDef{"f": {{"k", named("Int"), nil}}}})
+	s.add(&typeDef{name: "I", kind: "interface", fields: []fieldDef{{"f", named("Int")}},
+		fargs: map[string][]argDef{"f": {{"k", named("Int"), 1}}}})
 	s.add(&typeDef{name: "O", kind: "object", fields: []fieldDef{{"h", named("Int")}, {"plain", named("Int")}},
 		fargs: map[string][]argDef{"h": {{"k", named("Int"), 5}}}})
 	return s
@@ -350,6 +361,10 @@ func argFamily(h *hx.H) {
 		{`query($s: String = "x", $b: Boolean) {a: d(s: $s, b: $b) b: d(s: $s)}`,
 			[]map[string]interface{}{{}, {"s": "y", "b": true}, {"s": nil}, {"b": nil}, {"s": 1}, {"b": "t"}}},
 		{`{a: l(xs: [1, 2]) b: l(xs: 3) c: l(xs: [], x: 1.5) e: l(x: 2) g: l(x: 1e2)}`, none},
+		{`{il {f ... on IA {plain}} iv {f}}`, none},
+		{`{il {f ... on IB {b: f(xk: 1)} ... on IA {a: f(k: 7)}} iv {f(k: null)}}`, none},
+		{`query($n: Int) {il {f(k: $n)} iv {f(k: $n)}}`, intVars},
+		{`{il {...F} iv {...F}} fragment F on I {f}`, none},
 		{`query($xs: [Int!], $x: Float) {a: l(xs: $xs, x: $x) b: l(xs: [1, 2])}`,
 			[]map[string]interface{}{{}, {"xs": []interface{}{1, 2}}, {"xs": 3}, {"xs": []interface{}{1, nil}}, {"x": 2}, {"x": 1.5}, {"x": "z"}, {"xs": nil, "x": nil}}},
 	}
@@ -385,6 +400,31 @@ func argFamily(h *hx.H) {
 			{"x": 2.0}, {"x": 100.0}, {"xs": []interface{}{1, 2}, "x": nil}, {"xs": nil, "x": nil}, {"x": 1.5}, {"xs": []interface{}{3}, "x": nil}} {
 			put(root, "l", a, &outcome{kind: "list", items: []*outcome{pick(30 + i), pick(40 + i)}})
 		}
+		// objects of the three implementations of I, each answering differently per coerced k
+		impl := func(tag string, dflt interface{}) *outcome {
+			o := &outcome{kind: "obj", tag: tag, fields: map[string]*outcome{}}
+			for i, k := range []interface{}{1, 2, 3, 7, nil} {
+				a := map[string]interface{}{"k": k}
+				if tag == "IB" {
+					a["xk"] = 9
+				}
+				put(o, "f", a, &outcome{kind: "leaf", leaf: leaf{kind: "int", ik: "int", z: int64(100*len(tag) + 10*int(tag[1]-'A') + i)}})
+			}
+			if tag == "IB" {
+				put(o, "f", map[string]interface{}{"k": 3, "xk": 1}, pick(77))
+			}
+			if tag == "IC" {
+				put(o, "f", nil, pick(78)) // IC's k has no default: omitted means no argument at all
+			}
+			put(o, "plain", nil, pick(3))
+			return o
+		}
+		var items []*outcome
+		for i, n := 0, 2+r.Intn(3); i < n; i++ {
+			items = append(items, impl(rng.Pick(r, []string{"IA", "IB", "IC"}), nil))
+		}
+		put(root, "il", nil, &outcome{kind: "list", items: items})
+		put(root, "iv", nil, impl(rng.Pick(r, []string{"IA", "IB", "IC"}), nil))
 		for _, a := range []map[string]interface{}{{"id": "a"}, {"id": "7"}, {"id": 7}} {
 			o := &outcome{kind: "obj", tag: "O", fields: map[string]*outcome{}}
 			for i, k := range []interface{}{1, 2, 5, nil} {
@@ -652,8 +692,11 @@ func (g *docGen) newVar(t *tyRef) string {
 }
 
 // argsText: the argument list of one selection of field fname
-func (g *docGen) argsText(fname string) string {
+func (g *docGen) argsText(fname string, own bool, scope *typeDef) string {
 	defs := g.s.poolArgs[fname]
+	if own {
+		defs = fieldArgs(g.s, scope, fname)
+	}
 	if len(defs) == 0 {
 		return ""
 	}
